@@ -26,14 +26,15 @@ theorem C17_either_iff (m1 m2 : Member) (ms : List Member) :
 theorem C17_singleton_either (m : Member) :
     eitherClause [m] = getJoinFieldErr m.objName m.fieldName eitherValErr := rfl
 
-theorem C17_singleton_botheq (m : Member) :
-    bothEqClause [m] = pure (getJoinFieldErr m.objName m.fieldName bothEqValErr) := rfl
+theorem C17_singleton_botheq (ext : Ext) (m : Member) :
+    bothEqClause ext [m] = pure (getJoinFieldErr m.objName m.fieldName bothEqValErr) := rfl
 
-theorem mapM_deepEq (m0 : Member) (l : List Member) (eqs : List Bool)
+theorem deepEq_scalar (ext : Ext) (a c : GoVal) (r : Bool) (h : deepEqScalar a c = some r) : deepEq ext a c = pure r := by
+  unfold deepEq; rw [h]
+
+theorem mapM_deepEq (ext : Ext) (m0 : Member) (l : List Member) (eqs : List Bool)
     (h : l.mapM (fun m => deepEqScalar m0.val m.val) = some eqs) :
-    l.mapM (fun m => match deepEqScalar m0.val m.val with
-      | some r => (pure r : M Bool)
-      | none => throw (Stop.unmodelled "DeepEqual on composite values")) = .ok eqs := by
+    l.mapM (fun m => deepEq ext m0.val m.val) = .ok eqs := by
   induction l generalizing eqs with
   | nil => simp at h; subst h; rfl
   | cons a l ih =>
@@ -47,20 +48,17 @@ theorem mapM_deepEq (m0 : Member) (l : List Member) (eqs : List Bool)
       | some rest =>
         simp only [hl, Option.bind_some, Option.some.injEq] at h
         subst h
-        simp only [ih rest hl]
+        simp only [ih rest hl, deepEq_scalar ext _ _ r ha]
         rfl
 
 /-- a `botheq` group (scalar members) is violated exactly when some member differs from the first -/
-theorem C17_botheq_iff (m0 m1 : Member) (ms : List Member) (eqs : List Bool)
+theorem C17_botheq_iff (ext : Ext) (m0 m1 : Member) (ms : List Member) (eqs : List Bool)
     (h : (m1 :: ms).mapM (fun m => deepEqScalar m0.val m.val) = some eqs) :
-    ∃ out, bothEqClause (m0 :: m1 :: ms) = .ok out ∧ (out ≠ [] ↔ eqs.any (· == false) = true) := by
+    ∃ out, bothEqClause ext (m0 :: m1 :: ms) = .ok out ∧ (out ≠ [] ↔ eqs.any (· == false) = true) := by
   unfold bothEqClause
-  have hm := mapM_deepEq m0 (m1 :: ms) eqs h
+  have hm := mapM_deepEq ext m0 (m1 :: ms) eqs h
   show ∃ out, (do
-      let eqs ← (m1 :: ms).mapM fun (m : Member) =>
-        match deepEqScalar m0.val m.val with
-        | some r => (pure r : M Bool)
-        | none => throw (Stop.unmodelled "DeepEqual on composite values")
+      let eqs ← (m1 :: ms).mapM fun (m : Member) => deepEq ext m0.val m.val
       if eqs.all id then pure []
       else pure (Bytes.trimSuffix (memberNames (m0 :: m1 :: ms)) (b! ", ") ++ [SP] ++ explainEn ++ b! " they should be equal" ++ errEndFlag)) = .ok out ∧ _
   rw [hm]
@@ -174,8 +172,8 @@ theorem C17_independent_objects (ms₁ ms₂ : List Member)
     rw [this, List.nil_append]
 
 /-- … and so are their clauses -/
-theorem C17_independent_clauses (ms₁ ms₂ : List Member) (h : ∀ a ∈ ms₁, ∀ c ∈ ms₂, a.gkey ≠ c.gkey) :
-    groupClauses (ms₁ ++ ms₂) = (do let a ← groupClauses ms₁; let c ← groupClauses ms₂; pure (a ++ c)) := by
+theorem C17_independent_clauses (ext : Ext) (ms₁ ms₂ : List Member) (h : ∀ a ∈ ms₁, ∀ c ∈ ms₂, a.gkey ≠ c.gkey) :
+    groupClauses ext (ms₁ ++ ms₂) = (do let a ← groupClauses ext ms₁; let c ← groupClauses ext ms₂; pure (a ++ c)) := by
   unfold groupClauses
   rw [C17_independent_objects ms₁ ms₂ h, List.mapM_append]
 
